@@ -237,6 +237,10 @@ impl Session {
             "delete" => ("DELETE", format!("/adf/{}", args["name"].as_str().unwrap_or("")), None, vec![]),
             _ => panic!("unknown op"),
         };
+        let mut args = args;
+        if op == "add" {
+            args["code_cp"] = cps(args["code"].as_str().unwrap_or(""));
+        }
         let r = http(method, &path, cookie.as_deref(), ctype.as_deref(), &body);
         if let (Some(i), Some(c)) = (p, &r.set_cookie) {
             // an emptied cookie means logout
@@ -505,6 +509,8 @@ fn race_rename_window(s: &mut Session) {
     let h = s.ctrl.cmd(json!({"cmd": "hold", "match": {"cmd": "update", "coll": "adf-problems", "contains": "rwcarol"}}));
     let hid = h["hold"].as_u64().unwrap_or(0);
     let jar_a = s.jars[0].clone();
+    // the request is launched now; its response is recorded when it returns (after the other person's requests)
+    s.out.push(json!({"kind": "http_start", "id": format!("{}#launch", s.scen), "p": 1, "op": "update", "args": {"username": "rwcarol", "password": "pw-A-1"}}));
     let t = std::thread::spawn(move || {
         http("PUT", "/users/update", jar_a.as_deref(), Some("application/json"), json!({"username": "rwcarol", "password": "pw-A-1"}).to_string().as_bytes())
     });
